@@ -4,7 +4,7 @@ M8 (part 5) — the printers behind `RoocParser::format`: `Display for PreExp` w
 `PreObjective`, `PreConstraint` (il_problem.rs), `FunctionCall` incl. the range sugar
 (`std_fn_to_string`), block functions, `IterableSet`, `VariableKind`, `Variable`,
 `VariablesDomainDeclaration`, `PreVariableType`, `Constant` and the layout of `PreModel`
-(pre_model.rs).  Bug-compatible (parentheses only on STRICTLY lower precedence).  Import-free.
+(pre_model.rs).  Import-free.
 -/
 import Rooc.Gen.Prec
 import Rooc.Syntax.PExp
@@ -29,16 +29,27 @@ def IterVar.text : IterVar → String
   | .single n => n
   | .tuple ns => "(" ++ joinWith ", " ns ++ ")"
 
-/-- `Display for Variable::Variable` / `PreExp::Variable`: names containing `_` are escaped -/
-def varText (name : String) : String := if name.toList.contains '_' then "\\" ++ name else name
+/-- `name.trim_start_matches('$').trim_start_matches('_').contains('_')`: only an INNER underscore marks an
+escaped compound variable; leading `$` / `_` belong to a simple variable -/
+def needsEscape (name : String) : Bool :=
+  ((name.toList.dropWhile (· == '$')).dropWhile (· == '_')).contains '_'
 
-/-- `to_string_with_precedence(prev)` given the operand's own `Display` text: a binary operation is the
-same text as its `Display`, wrapped in parentheses iff its precedence is STRICTLY lower than `prev`;
-everything else is its `Display`. -/
-def wrapPrec (prev : Nat) (e : PExp) (s : String) : String :=
-  match e with
-  | .bin op _ _ => if Gen.binPrec op < prev then "(" ++ s ++ ")" else s
-  | _ => s
+/-- `Display for Variable::Variable` / `PreExp::Variable` -/
+def varText (name : String) : String := if needsEscape name then "\\" ++ name else name
+
+/-- does `to_string_with_precedence(parent, is_rhs)` parenthesise the operand? A binary operation of lower
+precedence, a right operand of equal precedence under a left-associative parent (`a - (b - c)`), or a
+right-associative left operand of equal precedence (`(a implies b) iff c`). -/
+def printsParen (parent : BinOp) (isRhs : Bool) : PExp → Bool
+  | .bin op _ _ =>
+    decide (Gen.binPrec op < Gen.binPrec parent) ||
+      (decide (Gen.binPrec op = Gen.binPrec parent) && (if isRhs then Gen.binLeftAssoc parent else !(Gen.binLeftAssoc op)))
+  | _ => false
+
+/-- `to_string_with_precedence(parent, is_rhs)` given the operand's own `Display` text: a binary operation is
+the same text as its `Display`, wrapped in parentheses iff `printsParen`; everything else is its `Display`. -/
+def wrapOperand (parent : BinOp) (isRhs : Bool) (e : PExp) (s : String) : String :=
+  if printsParen parent isRhs e then "(" ++ s ++ ")" else s
 
 /-- operand of the range sugar / of a unary operator: parenthesised unless `is_leaf` -/
 def wrapLeaf (e : PExp) (s : String) : String := if e.isLeaf then s else "(" ++ s ++ ")"
@@ -73,7 +84,7 @@ def fmtExp : PExp → String
   | .block k es => k ++ " { " ++ joinWith ", " (fmtList es) ++ " }"
   | .scoped k vs its body => k ++ "(" ++ joinWith ", " (fmtIters vs its) ++ ") { " ++ fmtExp body ++ " }"
   | .bin op l r =>
-    wrapPrec (Gen.binPrec op) l (fmtExp l) ++ " " ++ binOpText op ++ " " ++ wrapPrec (Gen.binPrec op) r (fmtExp r)
+    wrapOperand op false l (fmtExp l) ++ " " ++ binOpText op ++ " " ++ wrapOperand op true r (fmtExp r)
   | .un op e => unOpText op ++ wrapLeaf e (fmtExp e)
 def fmtList : List PExp → List String
   | [] => []
@@ -92,7 +103,7 @@ def fmtIters : List IterVar → List PExp → List String
 end
 
 /-- `to_string_with_precedence` -/
-def fmtPrec (prev : Nat) (e : PExp) : String := wrapPrec prev e (fmtExp e)
+def fmtOperand (parent : BinOp) (isRhs : Bool) (e : PExp) : String := wrapOperand parent isRhs e (fmtExp e)
 
 /-- constraint name: `Variable` -/
 inductive CName where
@@ -184,7 +195,10 @@ def reindent (s : String) : String :=
 
 /-- `Display for PreModel` (= `RoocParser::format`) -/
 def PModel.text (m : PModel) : String :=
-  m.objKind.text ++ " " ++ fmtExp m.objective ++ "\ns.t.\n"
+  -- `Display for PreObjective`: a satisfiability objective has no body in the source form
+  (match m.objKind with
+   | .solve => m.objKind.text
+   | _ => m.objKind.text ++ " " ++ fmtExp m.objective) ++ "\ns.t.\n"
     ++ String.join (m.constraints.map fun c => "    " ++ c.text ++ "\n")
     ++ (if m.constants.isEmpty then "" else
         "where\n" ++ String.join (m.constants.map fun (n, v) => "    " ++ reindent ("let " ++ n ++ " = " ++ fmtExp v) ++ "\n"))
